@@ -102,6 +102,43 @@ def walk(job):
     return {"plan": plan}
 
 
+def pairs(job):
+    """every valid two-action plan from the initial state whose actions are executed by different agents
+    (domain_text, problem_text, agents, cap)"""
+    domain, problem = _load(job)
+    agents = job["agents"]
+    calls = _ground_calls(domain, problem)
+    init = create_initial_state(problem)
+
+    def executor(c):
+        return next((p for p in c[1] if p in agents), None)
+
+    def applicable(state):
+        out = []
+        for name, args in calls:
+            try:
+                if Operator(domain.actions[name], domain, list(args)).is_applicable(state):
+                    out.append((name, args))
+            except Exception:  # noqa
+                pass
+        return out
+    plans = []
+    for a in applicable(init):
+        if executor(a) is None:
+            continue
+        s1 = Operator(domain.actions[a[0]], domain, list(a[1])).apply(init)
+        for b in applicable(s1):
+            if executor(b) is None or executor(b) == executor(a):
+                continue
+            plans.append([[a[0]] + list(a[1]), [b[0]] + list(b[1])])
+    total = len(plans)
+    cap = job.get("cap")
+    if cap and total > cap:
+        random.Random(job.get("seed", 0)).shuffle(plans)
+        plans = plans[:cap]
+    return {"plans": plans, "total": total}
+
+
 def _state(s):
     return read_state_text(s.serialize())
 
